@@ -1,5 +1,6 @@
 import Pocket.Lemmas.ParseWF
 import Pocket.Lemmas.Digits
+import Pocket.Lemmas.EventOrder
 /-
 C01 — event JSON parsing is faithful to an independent JSON parser.
 
@@ -7,10 +8,15 @@ Proved here (all inputs, no bound): whatever text is accepted, the result is the
 event whose seven parts are within their fields and which every accessor reads back
 (`accepted_is_wellformed`); integer literals are read exactly, and literals that do not fit
 (`created_at ≥ 2^64`, `kind > 65535`, any number of digits) are rejected, never wrapped.
-The completeness direction (every NIP-01 text is accepted, with the values an independent parser
-extracts) is established by the correspondence check against Python's `json` over the
-concrete-syntax-tree generator; its proof (`parseEvent_complete`, DESIGN.md §6/C01) is not
-closed yet and is not claimed.
+Completeness, proved for the texts whose member *values* are rendered as `as_json` renders them
+(every escape it uses, every UTF-8 string, every size): the seven members, each exactly once, in
+ANY of the 5040 orders, with ANY whitespace after `{`, before each key, around each colon and
+after each value, preceded by any whitespace and followed by anything, are accepted with exactly
+the values of the event, into any sufficient buffer (`any_order_any_whitespace`) — including the
+orders in which `content` precedes `tags` (skipped first, read when the tags are in place).
+Completeness for the rest of JSON (other escapes such as `\/` or `\u0041`, unknown members,
+duplicate members) is established by the correspondence check against Python's `json` over the
+concrete-syntax-tree generator and is not claimed as a theorem.
 -/
 namespace Pocket.C01
 open Pocket
@@ -46,5 +52,58 @@ theorem kind_literal (n : Nat) (rest : Bytes) (hn : n < 65536) (hr : NoLeadingDi
 
 theorem kind_wide_rejected (n : Nat) (rest : Bytes) (hn : n ≥ 65536) (hr : NoLeadingDigit rest) :
     readKind (decOf n ++ rest) = .err := readKind_decOf_wide n rest hn hr
+
+/-- **order independence and whitespace tolerance**: for every well-sized UTF-8 event, the seven
+members (values as `as_json` renders them) each exactly once, in any order, with any whitespace
+before each key, around each colon and after each value, after any leading whitespace and `{`,
+followed by anything: accepted, consuming up to the closing brace, with exactly the bytes
+`from_parts` writes — so every accessor returns the event's value -/
+theorem any_order_any_whitespace (e : EventRec) (hs : EventSized e)
+    (hbid : ∀ b ∈ e.id, b < 256) (hbpk : ∀ b ∈ e.pubkey, b < 256) (hbsig : ∀ b ∈ e.sig, b < 256)
+    (hut : TagsUtf8 e.tags) (huc : IsUtf8 e.content) (buf : Bytes)
+    (hbuf : (encodeEvent e).length ≤ buf.length)
+    (ms : List MemSpec) (hws : ∀ x ∈ ms, x.WsOk) (hnd : (ms.map (·.m)).Nodup)
+    (hall : ∀ m : EMem, m ∈ ms.map (·.m)) (lead : Bytes) (hlead : AllWs lead) (R : Bytes) :
+    ∃ tj ec, tagsJson e.tags = .ok tj ∧ jsonEscape e.content = .ok ec ∧
+      parseEvent (lead ++ 123 :: evText e tj ec ms R) buf =
+        .ok ((lead ++ 123 :: evText e tj ec ms R).length - R.length, (encodeEvent e).length,
+          encodeEvent e ++ buf.drop (encodeEvent e).length) ∧
+      eventDecode ((encodeEvent e ++ buf.drop (encodeEvent e).length).take (encodeEvent e).length) = .ok e := by
+  obtain ⟨tj, htj⟩ := tagsJson_ok e.tags hut
+  obtain ⟨ec, hec⟩ := IsUtf8_escape e.content huc
+  have hlen : (encodeEvent e).length = eventSize (tagsSize e.tags) e.content.length := by
+    unfold encodeEvent
+    rw [encodeEventWith_length _ _ _ _ _ _ _ hs.id hs.pk hs.sig, encodeTags_length]
+  have hc : ECtx e tj ec buf.length :=
+    ⟨hs, hbid, hbpk, hbsig, hut, huc, htj, hec, by rw [hlen] at hbuf; unfold eventSize at hbuf; exact hbuf⟩
+  refine ⟨tj, ec, htj, hec, parseEvent_any_order e tj ec buf hc ms hws hnd hall lead hlead R, ?_⟩
+  rw [List.take_left' rfl]
+  exact eventDecode_encode e hs
+
+/-- the canonical text itself (`as_json`) is accepted with the event's values -/
+theorem canonical_text_faithful (e : EventRec) (hs : EventSized e)
+    (hbid : ∀ b ∈ e.id, b < 256) (hbpk : ∀ b ∈ e.pubkey, b < 256) (hbsig : ∀ b ∈ e.sig, b < 256)
+    (hut : TagsUtf8 e.tags) (huc : IsUtf8 e.content) (rest buf : Bytes)
+    (hbuf : (encodeEvent e).length ≤ buf.length) :
+    ∃ txt c n out, eventJson e = .ok txt ∧ parseEvent (txt ++ rest) buf = .ok (c, n, out) ∧
+      c = txt.length ∧ eventDecode (out.take n) = .ok e := by
+  obtain ⟨txt, ht⟩ := eventJson_ok e hut huc
+  have hp := parseEvent_eventJson e hs hbid hbpk hbsig hut huc txt ht rest buf hbuf
+  refine ⟨txt, _, _, _, ht, hp, rfl, ?_⟩
+  rw [List.take_left' rfl]
+  exact eventDecode_encode e hs
+
+/-- the hypotheses on the member list are satisfiable by an order with `content` before `tags`,
+`sig` first, and whitespace everywhere -/
+example : ∃ ms : List MemSpec, (∀ x ∈ ms, x.WsOk) ∧ (ms.map (·.m)).Nodup ∧ (∀ m : EMem, m ∈ ms.map (·.m)) ∧
+    ms.map (·.m) = [.sig, .content, .kind, .tags, .id, .createdAt, .pubkey] := by
+  refine ⟨[⟨[32], [9], [10], [13], .sig⟩, ⟨[], [32, 32], [], [10], .content⟩, ⟨[10], [], [], [], .kind⟩,
+    ⟨[], [], [32], [], .tags⟩, ⟨[], [], [], [], .id⟩, ⟨[9], [], [], [32], .createdAt⟩, ⟨[], [], [], [10, 10], .pubkey⟩], ?_, ?_, ?_, rfl⟩
+  · intro x hx
+    simp only [List.mem_cons, List.not_mem_nil, or_false] at hx
+    rcases hx with rfl | rfl | rfl | rfl | rfl | rfl | rfl <;>
+      (refine ⟨?_, ?_, ?_, ?_⟩ <;> intro b hb <;> simp at hb <;> (try rcases hb with rfl | rfl) <;> (try subst hb) <;> decide)
+  · decide
+  · intro m; cases m <;> decide
 
 end Pocket.C01
